@@ -490,4 +490,303 @@ theorem arch_decode_canonical (c : ColConsts) (bs rest : Bytes) (a : Arch) (hwf 
             rw [a0.1, hr, hv4]
             simp [Arch.ofBools, List.append_assoc]
 
+/-! ## Canonical point encodings -/
+
+/-- `decode_canonical` (compressed G1: the Processed key format and every point of a proof) —
+an accepted 48-byte string IS the canonical compressed encoding of the point it decodes to: flag
+bits, sign bit and coordinate bytes admit no second spelling. (blst would accept either sign flag
+for a point with `y = 0`; no such point is on the curve — `#E(Fp)` is odd — but that fact is not
+proved here, hence the disjunct.) -/
+theorem decode_canonical (a : Bytes) (P : G1Pt) (hwf : WF a) (h : decodeG1c a = .ok P) :
+    encodeG1c P = a ∨ ∃ x, P = .aff x 0 := by
+  unfold decodeG1c at h
+  split at h
+  · simp at h
+  · next hlen =>
+    have hlen : a.length = 48 := by simpa using hlen
+    have hP : uncompressG1 a = .ok P := by
+      split at h
+      · simp at h
+      · next hu => simp only [Except.ok.injEq] at h; rw [← h]; exact hu
+      · next x y hu =>
+        split at h
+        · simp only [Except.ok.injEq] at h; rw [← h]; exact hu
+        · simp at h
+    clear h
+    unfold uncompressG1 at hP
+    split at hP
+    · simp at hP
+    · next b0 t =>
+      have hb0 : b0 < 256 := hwf b0 (by simp)
+      have ht : WF t := fun x hx => hwf x (by simp [hx])
+      have htl : t.length = 47 := by simpa using hlen
+      split at hP
+      · simp at hP
+      · next hc =>
+        split at hP
+        · next hi =>
+          split at hP
+          · next hz =>
+            simp only [Except.ok.injEq] at hP
+            subst hP
+            left
+            simp only [Bool.and_eq_true, decide_eq_true_eq] at hz
+            have e0 : b0 = 192 := by omega
+            have et := allZero_eq_replicate t hz.2
+            rw [htl] at et
+            simp only [encodeG1c]
+            rw [e0, ← et]
+          · simp at hP
+        · next hi =>
+          simp only at hP
+          split at hP
+          · simp at hP
+          · next hx =>
+            split at hP
+            · simp at hP
+            · next y hs =>
+              split at hP
+              · simp at hP
+              · simp only [Except.ok.injEq] at hP
+                subst hP
+                have hylt := sqrtFp_lt hs
+                have hsign := sign_after_cneg y (b0 / 32 % 2 == 1) hylt
+                simp only at hsign
+                rcases hsign with hsg | hy0
+                · left
+                  have hwf' : WF ((b0 % 32) :: t) := by
+                    intro z hz
+                    rcases List.mem_cons.mp hz with rfl | hz
+                    · omega
+                    · exact ht z hz
+                  have hbe := natToBe_beToNat ((b0 % 32) :: t) hwf'
+                  simp only [List.length_cons, htl] at hbe
+                  simp only [encodeG1c, hbe, hsg]
+                  congr 1
+                  by_cases hf : b0 / 32 % 2 = 1
+                  · simp [hf]; omega
+                  · simp [hf]; omega
+                · right
+                  exact ⟨_, by rw [hy0]⟩
+
+/-- Non-vacuity and tightness: the generator's compressed encoding is accepted, and flipping its
+sign bit yields a different point (so the sign bit is not ignored). -/
+example :
+    let g := natToBe 48 (2 ^ 383 + 0x17f1d3a73197d7942695638c4fa9ac0fc3688c4f9774b905a14e3a3f171bac586c55e83ff97a1aeffb3af00adb22c6bb)
+    let g' := natToBe 48 (2 ^ 383 + 2 ^ 381 + 0x17f1d3a73197d7942695638c4fa9ac0fc3688c4f9774b905a14e3a3f171bac586c55e83ff97a1aeffb3af00adb22c6bb)
+    (decodeG1c g).isOk = true ∧ (decodeG1c g').isOk = true ∧ decodeG1c g ≠ decodeG1c g' := by
+  decide +kernel
+
+/-- `decode_canonical` for the RawBytes point format, PARTIAL: an accepted 96-byte string whose
+three flag bits are clear (the form `write` produces) is the canonical uncompressed encoding of its
+point. What is missing for the full statement is false for the code as it is: blst's
+`blst_p1_deserialize` also accepts a *compressed* encoding in the first 48 bytes and ignores the
+other 48 (see the example below), so RawBytes keys are byte-malleable. -/
+theorem decode_canonical_uncompressed_partial (a : Bytes) (x y : Nat) (hwf : WF a)
+    (hflags : a.headD 0 / 32 = 0) (h : decodeG1u a = .ok (.aff x y)) :
+    encodeG1u (.aff x y) = a := by
+  unfold decodeG1u at h
+  split at h
+  · simp at h
+  · next hlen =>
+    have hlen : a.length = 96 := by simpa using hlen
+    have hP : deserializeG1 a = .ok (.aff x y) := by
+      split at h
+      · simp at h
+      · simp at h
+      · next x' y' hu =>
+        split at h
+        · simp only [Except.ok.injEq] at h; rw [← h]; exact hu
+        · simp at h
+    clear h
+    unfold deserializeG1 at hP
+    split at hP
+    · simp at hP
+    · next b0 t =>
+      simp only [List.headD_cons] at hflags
+      rw [if_pos hflags] at hP
+      simp only at hP
+      split at hP
+      · simp at hP
+      · split at hP
+        · simp at hP
+        · split at hP
+          · simp at hP
+          · simp only [Except.ok.injEq, G1Pt.aff.injEq] at hP
+            obtain ⟨rfl, rfl⟩ := hP
+            have w := (List.take_append_drop 48 (b0 :: t))
+            have wt : WF ((b0 :: t).take 48) := fun z hz => hwf z (List.mem_of_mem_take hz)
+            have wd : WF ((b0 :: t).drop 48) := fun z hz => hwf z (List.mem_of_mem_drop hz)
+            have lt : ((b0 :: t).take 48).length = 48 := by rw [List.length_take]; omega
+            have ld : ((b0 :: t).drop 48).length = 48 := by rw [List.length_drop]; omega
+            have e1 := natToBe_beToNat _ wt
+            have e2 := natToBe_beToNat _ wd
+            rw [lt] at e1
+            rw [ld] at e2
+            simp only [encodeG1u, e1, e2, w]
+
+/-- The malleability of the RawBytes point format (what keeps `decode_canonical` partial there):
+the compressed generator followed by 48 arbitrary bytes is accepted in a 96-byte slot and decodes
+to the generator, whose canonical encoding is a different byte string. -/
+example :
+    let a := natToBe 48 (2 ^ 383 + 0x17f1d3a73197d7942695638c4fa9ac0fc3688c4f9774b905a14e3a3f171bac586c55e83ff97a1aeffb3af00adb22c6bb) ++ List.replicate 48 0xaa
+    match decodeG1u a with
+    | .ok P => encodeG1u P ≠ a
+    | .error _ => False := by
+  decide +kernel
+
+/-- `G2Affine::from_uncompressed` (RawBytes verifier parameters) does check the subgroup. -/
+theorem accepted_points_valid_g2_uncompressed (a : Bytes) (x y : Fp2) (h : decodeG2u a = .ok (.aff x y)) :
+    onCurveG2 x y = true ∧ inSubgroupG2 x y = true := by
+  unfold decodeG2u at h
+  split at h
+  · simp at h
+  · split at h
+    · simp at h
+    · simp at h
+    · split at h
+      · next hc =>
+        simp only [Except.ok.injEq, G2Pt.aff.injEq] at h
+        obtain ⟨rfl, rfl⟩ := h
+        simpa using hc
+      · simp at h
+
+/-! ## MidnightVK -/
+
+/-- `vk_counts_match_cs` at the `MidnightVK::read` level: an accepted key carries an architecture
+`ZkStdLib::configure` can configure, and exactly the commitment counts of the constraint system of
+THAT architecture. -/
+theorem mvk_counts_match_cs {Pt : Type} (dec : Bytes → Except Err Pt) (size : Nat) (c : ColConsts)
+    (shape : Arch → CsShape) (bs rest : Bytes) (m : MVKey Pt)
+    (h : decodeMVKWith dec size c shape bs = .ok (m, rest)) :
+    m.arch.nrPow2rangeCols < pow2Bound c ∧ m.vk.fixed.length = (shape m.arch).nFixed ∧
+      m.vk.perm.length = (shape m.arch).nPerm ∧ extendedK m.vk.k (shape m.arch).degree ≤ fqS := by
+  unfold decodeMVKWith at h
+  split at h
+  · simp at h
+  · next arch r0 ha =>
+    split at h
+    · simp at h
+    · split at h
+      · simp at h
+      · split at h
+        · simp at h
+        · next vk r3 hv =>
+          simp only [Except.ok.injEq, Prod.mk.injEq] at h
+          obtain ⟨rfl, _⟩ := h
+          have hc := vk_counts_match_cs dec size (shape arch) _ _ vk hv
+          refine ⟨?_, hc.1, hc.2.1, hc.2.2.2⟩
+          -- the bound is checked by `decodeArch` whatever the bytes
+          unfold decodeArch at ha
+          split at ha
+          · simp at ha
+          · split at ha
+            · simp at ha
+            · split at ha
+              · simp at ha
+              · split at ha
+                · simp at ha
+                · split at ha
+                  · simp at ha
+                  · next hnr =>
+                    simp only [Except.ok.injEq, Prod.mk.injEq] at ha
+                    rw [← ha.1]
+                    simpa [Arch.ofBools] using hnr
+
+/-- An accepted `k` has an extended domain that is large enough for the quotient polynomial and
+exists in the field (what `EvaluationDomain::new` asserts). -/
+theorem vk_extended_domain_exists (k degree : Nat) (hk : k ≤ fqS) (h : extendedK k degree ≤ fqS) :
+    2 ^ k * (degree - 1) ≤ 2 ^ extendedK k degree ∧ k ≤ extendedK k degree := by
+  unfold extendedK at h ⊢
+  have : fqS = 32 := rfl
+  exact extKLoop_spec 64 k k (degree - 1) (by omega)
+
+example : extendedK 30 5 = 32 ∧ extendedK 31 5 = 33 ∧ extendedK 4 5 = 6 := by decide +kernel
+
+/-! ## Proofs -/
+
+/-- Byte length of a proof as a function of the constraint-system shape: 48 bytes per point,
+32 per scalar, with the element counts of the verifier's read sequence. -/
+theorem proof_len_formula (s : ProofShape) :
+    proofLen s =
+      48 * (s.nAdvice + 3 * s.nLookups + permChunks s + s.nTrash + 1 + (s.degree - 1) + 2) +
+      32 * (s.nInstQ + s.nAdvQ + s.nFixQ + 1 + s.nPerm + (3 * permChunks s - 1) + 5 * s.nLookups + s.nTrash + s.nSets) := by
+  simp only [proofLen, proofSchedule, plonkSchedule, openingSchedule, scheduleLen_append, scheduleLen_replicate,
+    Elem.size]
+  simp only [scheduleLen, List.map_cons, List.map_nil, List.sum_cons, List.sum_nil, Elem.size]
+  omega
+
+/-- A proof whose every element decodes and that leaves no byte unread has exactly the length the
+shape dictates; any other length ends in `Transcript`/`Opening` — never in an out-of-bounds read. -/
+theorem proof_parsed_exact_length (decPt : Bytes → Except Err G1Pt) (s : ProofShape) (bs : Bytes) (n : Nat)
+    (h : parseProof decPt s bs = (n, .parsed)) :
+    bs.length = proofLen s ∧ n = (proofSchedule s).length := by
+  unfold parseProof at h
+  split at h
+  · next n' e rest hp =>
+    simp only [Prod.mk.injEq] at h
+    split at h <;> simp at h
+  · next n' rest hp =>
+    simp only [Prod.mk.injEq] at h
+    obtain ⟨rfl, hv⟩ := h
+    split at hv
+    · next hempty =>
+      have := (parseElems_spec decPt _ _ _ _ _ _ hp).2.2 rfl
+      have hr : rest.length = 0 := by
+        cases rest with
+        | nil => rfl
+        | cons _ _ => simp at hempty
+      exact ⟨by rw [this.2, hr]; rfl, by omega⟩
+    · simp at hv
+
+/-- The verifier never reads more elements than the schedule has, whatever the bytes. -/
+theorem proof_reads_bounded (decPt : Bytes → Except Err G1Pt) (s : ProofShape) (bs : Bytes) :
+    (parseProof decPt s bs).1 ≤ (proofSchedule s).length := by
+  unfold parseProof
+  split
+  · next n e rest hp => have := (parseElems_spec decPt _ _ _ _ _ _ hp).2.1; simpa using this
+  · next n rest hp => have := (parseElems_spec decPt _ _ _ _ _ _ hp).2.1; simpa using this
+
+/-- Non-vacuity: the shape of the harness' relation A gives its 2528-byte proof. -/
+example : proofLen ⟨5, 1, 0, 8, 5, 0, 11, 13, 4⟩ = 2528 := by decide
+
+/-! ## ZKIR programs -/
+
+/-- A program accepted by `read_relation` passed `check_arity` on every instruction (the parsers
+index `inps[0]`, `inps[1]` without further checks). -/
+theorem ir_arity_checked (p : BParams) (bs rest : Bytes) (prog : List Instr)
+    (h : decodeRelation p bs = .ok (prog, rest)) :
+    ∀ i ∈ prog, checkArity i.op.tag i.inputs.length i.outputs.length = true := by
+  unfold decodeRelation at h
+  split at h
+  · simp at h
+  · next prog' st _ =>
+    split at h
+    · simp at h
+    · next hf =>
+      simp only [Except.ok.injEq, Prod.mk.injEq] at h
+      obtain ⟨rfl, _⟩ := h
+      intro i hi
+      have := firstArityFailure_none _ 0 hf (i.op.tag, i.inputs.length, i.outputs.length)
+        (List.mem_map.mpr ⟨i, hi, rfl⟩)
+      simpa using this
+
+/-- Every container the bincode decoder is allowed to pre-allocate was claimed against the limit
+first: a length prefix alone can never make `Vec::with_capacity(len)` exceed `limit` bytes (the
+condition whose absence made `read_relation` panic/abort on 9 input bytes). -/
+theorem ir_container_claim_bounded (p : BParams) (n : Nat) (s s' : BState)
+    (h : claim p n s = .ok ((), s')) : n ≤ p.limit ∧ s'.claimed ≤ p.limit := by
+  unfold claim at h
+  split at h
+  · simp at h
+  · simp only [Except.ok.injEq, Prod.mk.injEq, true_and] at h
+    subst h
+    simp only
+    omega
+
+/-- Non-vacuity: the 9-byte input that used to panic is rejected by the limit; an empty program
+is accepted. -/
+example : decodeRelation ⟨72, 24, 2 ^ 24⟩ [0xfd, 0, 0, 0, 0, 0, 0, 0, 0x10] = .error .irLimit ∧
+    (decodeRelation ⟨72, 24, 2 ^ 24⟩ [0]).isOk = true := by decide +kernel
+
 end MidnightZK.C16
